@@ -60,6 +60,11 @@ CHECKS.update({
              text="Bounded symbolic checking of totality and timestamp-independence: on every explored path neither run raises and pairs/triples give the same states, index and probability; degenerate geometry is ordinary symbolic input in the planar metric.",
              note="Lat-lon runs only exercise control flow/tuple handling (opaque sin/cos/...; exception paths there are replayed on concrete coordinates before being reported); SimpleMatcher.logprob_obs(0) rounding outside."),
 })
+CHECKS.update({
+ 'C16': dict(tech="CrossHair on the label attributes compared by logprob_trans (read from the AST); relational symbolic execution under relabelling/scaling over abstract geometry; relational symbolic execution of the real planar kernels under swap/scale/translate (z3 nlsat)", ref="5/C16",
+             text="Bounded symbolic checking of invariance: label comparison injective for all short str/int labels; same index and probability under bijective relabelling (dash / mixed labels, other listing order) and under scaling of all distances and parameters; kernels commute with axis swap, symbolic scaling and translation. The scale-dependence of the absolute 1e-8 tolerances is a listed known finding.",
+             note="Reals (translation/scaling exact); matcher-level scaling with concrete factors 4, 1/4, 2^20; graphs <=4 nodes, T<=3."),
+})
 NA = {
  'C15': "error bound between two transcendental computations (great-circle vs locally projected planar): needs a delta-complete procedure for sin/cos/atan2; z3 has none and cvc5 QF_NRAT timed out on the 3-variable core (DESIGN.md section 8)",
 }
